@@ -132,6 +132,7 @@ type node struct {
 
 	// violations found inside wrappers (store ordering), drained by the oracles
 	wrapViol []string
+	wrapViolPH []string
 	wrapKeys map[string]bool // kind|h|r of own votes the mirror persisted that the action store does not hold
 
 	// outgoing messages seen in gossip views, for the network harness
@@ -379,6 +380,20 @@ func (s nRoundStore) checkOwn(kind byte, h uint64, r uint32, p tmconsensus.Spars
 			}
 		}
 	}
+}
+
+// SaveRoundProposedHeader: a proposed header signed by this node's key that the mirror persists (i.e. that was
+// released to the mirror) must already be recorded in the action store. Evaluated at the instant of the call,
+// whether or not the write itself is let through (crash points).
+func (s nRoundStore) SaveRoundProposedHeader(ctx context.Context, ph tmconsensus.ProposedHeader) error {
+	n := s.n
+	if ph.ProposerPubKey != nil && ph.ProposerPubKey.Equal(n.pubKey()) && len(ph.Signature) > 0 {
+		ra, err := n.st.as.LoadActions(context.Background(), ph.Header.Height, ph.Round)
+		if err != nil || string(ra.ProposedHeader.Signature) != string(ph.Signature) {
+			n.wrapViolPH = append(n.wrapViolPH, fmt.Sprintf("the mirror was handed (and persists) this validator's proposed header %s for %d/%d which is not in the action store", h8(ph.Header.Hash), ph.Header.Height, ph.Round))
+		}
+	}
+	return s.fRoundStore.SaveRoundProposedHeader(ctx, ph)
 }
 
 func (s nRoundStore) OverwriteRoundPrevoteProofs(ctx context.Context, h uint64, r uint32, p tmconsensus.SparseSignatureCollection) error {
